@@ -71,7 +71,10 @@ def cpath(p: str):
     return "[" + ";".join(cstr(c) for c in p.split("/")) + "]"
 
 
-USER_PATHS_OUT = ["NOTES.txt", "{pkg}extra.py", "{pkg}my/own.py"]
+# user files: ordinary names, names that OTHER metadata flavours generate (a poetry project's own setup.py, a none-flavour package's
+# own pyproject.toml / README.md ...), hidden files, files next to the package
+USER_PATHS_OUT = ["NOTES.txt", "{pkg}extra.py", "{pkg}my/own.py", "setup.py", "pyproject.toml", "README.md", ".gitignore", "setup.cfg", "requirements.txt", "tests/test_mine.py",
+                  "{pkg}conftest.py", "{pkg}README.md", ".env"]
 USER_PATHS_IN = ["{pkg}models/stale_user.py", "{pkg}api/old/thing.py", "{pkg}api/pets/extra.py"]
 
 
@@ -107,6 +110,9 @@ def run(run, tier, replay=None):
                     steps.append(("user", rng.choice(USER_PATHS_OUT).format(pkg=pp), rng.randrange(1, 9)))
                 else:
                     steps.append(("user", rng.choice(USER_PATHS_IN).format(pkg=pp), rng.randrange(1, 9)))
+            if hi == 0:
+                # fixed history: a generation, a user file at EVERY listed path (incl. the names other flavours generate), a regeneration over it
+                steps = [("gen", 0, True)] + [("user", u.format(pkg=pp), 1 + k % 8) for k, u in enumerate(USER_PATHS_OUT + USER_PATHS_IN)] + [("gen", 1 % len(D), True)]
             if steps[-1][0] != "gen" or not steps[-1][2]:
                 steps.append(("gen", rng.randrange(len(D)), True))
             root = Path(tempfile.mkdtemp(prefix="opc_h_"))
@@ -195,6 +201,56 @@ def run(run, tier, replay=None):
     hostile(run, tier)
     hooks(run, tier)
     preexisting(run, tier)
+    path_spellings(run, tier)
+
+
+def path_spellings(run, tier):
+    """--output-path spelt in every way the OS accepts (relative, ./, trailing slash, a/../b, through a symlinked directory, symlink + ..):
+    everything is written under the location the OPERATING SYSTEM resolves the given path to, nothing anywhere else"""
+    D = docs()
+    import contextlib, io
+    from openapi_python_client import generate
+    from openapi_python_client.config import Config, ConfigFile, MetaType
+    for meta in (["none", "poetry"] if tier == "quick" else ["none", "poetry", "pdm", "setup"]):
+        for label, spell in [("plain", "{root}/work/client"), ("dot", "{root}/work/./client"), ("slash", "{root}/work/client/"), ("dotdot", "{root}/work/sub/../client"),
+                             ("symlink", "{root}/work/current/client"), ("symlink-dotdot", "{root}/work/current/../client"), ("relative", "work/client"), ("relative-dotdot", "work/sub/../client")]:
+            for ow in (False, True):
+                root = Path(tempfile.mkdtemp(prefix="opc_s_")).resolve()
+                old = os.getcwd()
+                try:
+                    (root / "work" / "sub").mkdir(parents=True)
+                    (root / "releases" / "v2").mkdir(parents=True)
+                    (root / "work" / "current").symlink_to(root / "releases" / "v2", target_is_directory=True)
+                    (root / "doc.json").write_text(json.dumps(D[0]))
+                    given = spell.format(root=root)
+                    os.chdir(root)
+                    target = Path(os.path.realpath(given))            # what the OS means by the path as given
+                    if ow:
+                        target.mkdir(parents=True, exist_ok=True)
+                        (target / "USER.txt").write_text("u")
+                    cfg = Config.from_sources(ConfigFile(post_hooks=[]), MetaType(meta), root / "doc.json", "utf-8", ow, output_path=Path(given))
+                    errs, exc = [], None
+                    try:
+                        with contextlib.redirect_stdout(io.StringIO()):
+                            errs = list(generate(config=cfg))
+                    except BaseException as e:  # noqa
+                        exc = e
+                    os.chdir(old)
+                    case = {"meta": meta, "output_path_spelling": label, "overwrite": ow}
+                    run.note_case(case, nontrivial=True, kind="path-spelling")
+                    if exc is not None:
+                        run.violation("oracle", {**case, "given": given, "note": "generate raised", "error": repr(exc)})
+                        continue
+                    files = sorted(str(p.relative_to(root)) for p in root.rglob("*") if p.is_file() and not p.is_symlink())
+                    trel = str(target.relative_to(root))
+                    outside = [f for f in files if not (f == "doc.json" or f.startswith(trel + "/"))]
+                    inside = [f for f in files if f.startswith(trel + "/")]
+                    if outside or len(inside) < 5 or (ow and not (target / "USER.txt").exists()):
+                        run.violation("oracle", {**case, "given": given.replace(str(root), "<root>"), "resolves_to": trel, "outside": outside[:8], "inside_count": len(inside), "errors": [str(getattr(e, "header", e))[:80] for e in errs][:3],
+                                                 "note": "files were written somewhere else than the location the given --output-path resolves to (or the user's file there was lost)"})
+                finally:
+                    os.chdir(old)
+                    shutil.rmtree(root, ignore_errors=True)
 
 
 def preexisting(run, tier):
